@@ -16,12 +16,12 @@ import (
 
 func init() {
 	register(&Rule{ID: "LIM-1", Min: 1, Run: runLIM1,
-		Doc: "the recognisers impose no size limit: in the scanner packages (formats/json, the schema scanner, rules/enum, internal/json) and the example builder, no branch compares a counter — an integer that is not a byte, not an index into the text and not a length of it — with a constant of 8 or more; RFC 8259 texts of any nesting depth, numerals of any length and exponents of any size are within the properties' quantifiers, and a \"hardening\" limit (maximal nesting 128, maximal exponent 308, maximal example depth 32) rejects or truncates valid input that no test reaches"})
+		Doc: "the recognisers impose no size limit: in the scanner packages (formats/json, the schema scanner, rules/enum, internal/json) and the example builder, no branch compares a counter — an integer that is not a byte, not an index into the text and not a length of it — with a constant between 8 and 4096 (what a text of the quantified sizes, up to 4 KiB, can reach); RFC 8259 texts of any nesting depth, numerals of any length and exponents of any size are within the properties' quantifiers, and a \"hardening\" limit (maximal nesting 128, maximal exponent 308, maximal example depth 32) rejects or truncates valid input that no test reaches"})
 }
 
 var limPkgs = map[string]bool{
 	"formats/json": true, "notations/jschema/internal/scanner": true, "rules/enum": true, "internal/json": true,
-	"internal/ds": true, "notations/jschema": true, "notations/regex": true,
+	"notations/jschema": true, "notations/regex": true,
 }
 
 func runLIM1(c *load.Ctx, r *report.RuleResult) {
@@ -56,8 +56,13 @@ func runLIM1(c *load.Ctx, r *report.RuleResult) {
 					continue // bytes and runes are character classes
 				}
 				v, exact := constant.Int64Val(k.Value)
-				if !exact || (v < 8 && v > -8) {
-					continue
+				if !exact || (v < 8 && v > -8) || v > 4096 || v < -4096 {
+					continue // small constants are structure; beyond 4096 no text of the quantified sizes (4 KiB) gets there
+				}
+				if call, ok := other.(*ssa.Call); ok {
+					if bi, ok := call.Call.Value.(*ssa.Builtin); ok && bi.Name() == "cap" {
+						continue // a capacity is memory, not input
+					}
 				}
 				n++
 				key := fmt.Sprintf("limit|%s|%s %s %d", load.FuncKey(fn), describeValue(other), bo.Op, v)
